@@ -54,7 +54,10 @@ def make_case(cid, p, rng, e2e):
     vis = rng.choice(["pub ", "pub ", "", "pub(crate) "])
     if t in ("trait", "trait0"):
         attr = "#[::entrait::%s(%s)] /*@inv*/" % (p["macro"], ", ".join(opts))
-        item = (vis + "trait Tr { fn f(&self, a: i32) -> i32; }") if t == "trait" else (vis + "trait Tr {}")
+        # (the shape of the trait header is not a dimension of the rules either: supertraits that the mock types satisfy, a where clause)
+        # (`Send`, not `Sync`: mockall's mock objects are not `Sync`)
+        sup = rng.choice(["", "", ": ::core::marker::Send", ": 'static", ": ::core::marker::Sized + ::core::marker::Send + 'static", " where Self: ::core::marker::Send"])
+        item = (vis + "trait Tr%s { fn f(&self, a: i32) -> i32; }" % sup) if t == "trait" else (vis + "trait Tr%s {}" % sup)
         scope = "self"
     elif t == "fn":
         attr = "#[::entrait::%s(%s)] /*@inv*/" % (p["macro"], ", ".join([vis + "Tr"] + opts))
